@@ -31,8 +31,8 @@ def run(r):
     for (i, c, im, o) in mine[:2]:
         r.violation("lrgen-%d" % i, {"kind": "property-violated-by-implementation", "what": o}, True)
     r.assumptions += c04_resolve.ASSUMPTIONS + [
-        "exactness of lookahead sets (no extra lookahead inventing a conflict) is carried by the correspondence with the independent reference (a test), "
-        "not by a theorem; no missing lookahead / no hidden conflict on accepted grammars is carried by the verified validator"]
+        "accepted grammars: item sets are exactly the LALR(1) item sets (check = no missing item/lookahead, justify = no invented one; items_exact, tables_are_lalr), "
+        "evaluated on every emitted table; refused grammars: the verdict is compared with the independent reference (a test; no_invented_conflict_of is proved but not run on refused grammars)"]
     return r.finish(LEVEL, "Lean: resolveConflicts decision logic for all action cells (only one-rule S/R pairs with explicit precedences are settled; verdict = some cell keeps >1 action), "
                     "validator soundness for accepted tables; tie: resolve family vs the real resolveConflicts, verdict+automaton vs independent LALR(1) reference",
                     common.TRUSTED_COMMON)
